@@ -1530,7 +1530,8 @@ type Pattern struct {
 }
 
 func newPattern(pattern string) (*Pattern, error) {
-	r, err := regexp.Compile(pattern)
+	// a YANG pattern (XSD regular expression) has to match the whole value
+	r, err := regexp.Compile("^(?:" + pattern + ")$")
 	if err != nil {
 		return nil, err
 	}
